@@ -205,6 +205,8 @@ def gen_cases(rng, tier, n):
         miss = rng.chance(1, 8)
         items = [[rng.choice(keys) if not (miss and rng.chance(1, 4)) else rng.below(8), rng.below(1000)] for _ in range(rng.below(12))]
         cases.append({"k": "demux", "keys": keys, "items": items})
+    for i in range(n // 8):
+        cases.append(gen_bp(rng))
     while len(cases) < n:
         t = gen_type(rng, rng.range(0, 2))
         nm = rng.range(1, 5)
@@ -216,7 +218,7 @@ def gen_cases(rng, tier, n):
 
 def term(case, res):
     k = case["k"]
-    if "panic" in res and k != "demux":
+    if "panic" in res and k not in ("demux", "bp"):
         return 3
     if "hang" in res or "crash" in res or "garbled" in res or "bad_case" in res:
         return 3
@@ -240,6 +242,8 @@ def term(case, res):
         return "(chk_member %d %s %s %s %s %d %d %d)" % (case["raw"], g_bytes(res["bytes"]), g_bytes(res["tbytes"]),
                                                         "true" if res["same"] else "false", "true" if res["tagless_again"] else "false",
                                                         res["raw_back"], res["tagless_raw"], res["de_raw"])
+    if k == "bp":
+        return bp_term(case, res)
     if k == "demux":
         items = vlib.g_list(["(%d, %d)" % (a, b) for a, b in case["items"]])
         keys = vlib.g_list(["%d" % x for x in case["keys"]])
@@ -278,9 +282,39 @@ def emb_term(case, res):
     return "(chk_emb %s %d %s %s %s %s)" % (g_ty(t), case["sender"], vlib.g_list(["%d" % m for m in case["members"]]), items, wire, recv)
 
 
+def gen_bp(rng):
+    """demux_map under back-pressure: >= 2 members, readiness scripts, messages to all of them"""
+    nm = rng.range(2, 4)
+    keys = rng.sample(list(range(8)), nm)
+    dens = rng.choice([1, 2, 3])          # pending density /4
+    init = [[k, [not rng.chance(dens, 4) for _ in range(rng.below(7))]] for k in keys]
+    items = [[rng.choice(keys), rng.range(1, 999)] for _ in range(rng.range(1, 8))]
+    return {"k": "bp", "init": init, "items": items, "fuel": 40}
+
+
+def bp_term(case, res):
+    init = vlib.g_list(["(%d, %s)" % (k, vlib.g_list(["true" if b else "false" for b in sc])) for k, sc in case["init"]])
+    items = vlib.g_list(["(%d, %d)" % (k, x) for k, x in case["items"]])
+    if "members" in res:
+        mem = vlib.g_list(["(%d, (%s, %d))" % (k, g_bytes(got), lost) for k, got, lost in res["members"]])
+        polls = vlib.g_list(["true" if b else "false" for b in res["polls"]])
+        impl = "(Some (%s, %s))" % (mem, polls)
+        ans = vlib.g_list(["(%d, %s)" % (k, vlib.g_list(["true" if b else "false" for b in a])) for k, a in res["answers"]])
+    else:
+        impl, ans = "None", "[]"
+    return "(chk_bp %d %s %s %s %s)" % (case["fuel"], init, items, impl, ans)
+
+
 def shrink(case):
     k = case["k"]
-    if k in ("demux", "wire", "emb"):
+    if k == "bp":
+        for i in range(len(case["init"])):
+            sc = case["init"][i][1]
+            for j in range(len(sc)):
+                ini = [list(x) for x in case["init"]]
+                ini[i] = [ini[i][0], sc[:j] + sc[j + 1:]]
+                yield dict(case, init=ini)
+    if k in ("demux", "wire", "emb", "bp"):
         it = case["items"]
         for i in range(len(it)):
             yield dict(case, items=it[:i] + it[i + 1:])
